@@ -19,7 +19,7 @@ impl StateMachine<'_> {
             return Ok(false);
         }
         let mut handled_line = false;
-        if self.config.relative_paths {
+        if self.config.relative_paths && !self.config.color_only {
             if let Some(cwd) = self.config.cwd_relative_to_repo_root.as_deref() {
                 if let Some(replacement_line) =
                     relativize_path_in_diff_stat_line(&self.raw_line, cwd, self.config)
